@@ -66,7 +66,14 @@ func runC20(src sim.Source, o Opts) *Result {
 	res := newResult()
 	res.Case["prop"] = "C20"
 	// the log handler's own minimum level: slog drops what is below it, everything else must still arrive
-	capt := &world.Capture{MinLevel: sim.Pick(src, "minlevel", []slog.Level{slog.LevelDebug, slog.LevelDebug, slog.LevelInfo, slog.LevelWarn, slog.LevelError})}
+	minLevel := sim.Pick(src, "minlevel", []slog.Level{slog.LevelDebug, slog.LevelDebug, slog.LevelInfo, slog.LevelWarn, slog.LevelError})
+	capt := &world.Capture{MinLevel: minLevel}
+	lateLevel := sim.Bool(src, "latelevel")
+	if lateLevel {
+		// a handler with a dynamic level (slog.LevelVar): while the middleware is being built it accepts nothing, the drawn
+		// minimum level only applies from the first request on
+		capt.MinLevel = slog.LevelError + 4
+	}
 	globalRes := src.Intn("globalresolver", 3)                                   // 0 none 1 ok 2 failing
 	failIP := sim.Pick(src, "failingresolveraddr", []string{"", "203.0.113.66"}) // what a failing resolver returns next to its error
 	var gopt []fox.GlobalOption
@@ -82,6 +89,7 @@ func runC20(src sim.Source, o Opts) *Result {
 		res.Trouble = err.Error()
 		return res
 	}
+	capt.MinLevel = minLevel
 	twin, err := world.Build(cfg, gopt...)
 	if err != nil {
 		res.Trouble = err.Error()
@@ -115,7 +123,7 @@ func runC20(src sim.Source, o Opts) *Result {
 			}
 		}
 	}
-	res.Case["config"] = fmt.Sprintf("global resolver %d, routes %v, failing resolvers return address %q with their error, log handler minimum level %s", globalRes, routes, failIP, capt.MinLevel)
+	res.Case["config"] = fmt.Sprintf("global resolver %d, routes %v, failing resolvers return address %q with their error, log handler minimum level %s (set after the middleware was built: %v)", globalRes, routes, failIP, capt.MinLevel, lateLevel)
 	expectMsg := func(kind model.Kind, r rdef) string {
 		eff := globalRes
 		if kind == model.KRoute {
@@ -395,7 +403,7 @@ func runC20(src sim.Source, o Opts) *Result {
 	}
 	res.Case["requests"] = scripts
 	res.Nontrivial = len(classes) >= 3 && len(kinds) >= 2
-	res.CaseKey = hashStrings(append([]string{fmt.Sprint(globalRes), fmt.Sprint(routes), failIP, capt.MinLevel.String()}, scripts...)...)
+	res.CaseKey = hashStrings(append([]string{fmt.Sprint(globalRes), fmt.Sprint(routes), failIP, capt.MinLevel.String(), fmt.Sprint(lateLevel)}, scripts...)...)
 	res.Hash = hashStrings(fmt.Sprint(res.Checks), fmt.Sprint(scripts))
 	res.Steps = len(scripts)
 	return res
